@@ -403,7 +403,7 @@ pub fn run(tier: &str, seed: u64) -> i32 {
     let mut st = sweep(
         &format!("D-perm(D-arms + D-generic(coincidence-free) + D-family + D-graph registries; all n! permutations for n <= {full_up_to} (Cayley graph of adjacent transpositions), transpositions/rotations/reversal above; every single-id and (n <= 8) pair closure)"),
         &cases,
-        Duration::from_secs(if thorough { 1800 } else { 55 }),
+        Duration::from_secs(if thorough { 1800 } else { 150 }),
         |c| json!({"program": c.prog.to_source()}),
         |c, ctx| check_case(c, full_up_to, ctx),
     );
@@ -432,7 +432,7 @@ pub fn run(tier: &str, seed: u64) -> i32 {
     report.add(sweep(
         "D-perm(polkadot: reversal, 3 rotations, a stride of adjacent transpositions)",
         &perms,
-        Duration::from_secs(if thorough { 600 } else { 40 }),
+        Duration::from_secs(if thorough { 600 } else { 150 }),
         |p| json!({"polkadot_permutation_first_entries": &p[..8.min(p.len())]}),
         |p, ctx| {
             ctx.exec(1);
